@@ -34,6 +34,10 @@ func (v *AddServicesValidator) Validate(p patch.Patch) error {
 		return fmt.Errorf("invalid add services value: %s", err.Error())
 	}
 
+	if err := getObjects(value, "services"); err != nil {
+		return err
+	}
+
 	services := document.ParseServices(value)
 
 	return validateServices(services)
